@@ -159,6 +159,8 @@ func monitor(sc scenario, o outcome) verdict {
 	curEpoch := 0
 	doomedEp := map[int]bool{}
 	lastFail := map[int]int{}
+	dialed := map[int]bool{0: true} // connection epochs for which the client got a socket (dial order = epoch order)
+	endedEp := map[int]bool{}       // … whose socket ended without the harness killing it
 	closed, alive := false, true
 	laterDial := func(from int) bool {
 		for _, e := range o.log[from:] {
@@ -180,10 +182,15 @@ func monitor(sc scenario, o outcome) verdict {
 			for j := 1; j <= sc.flaky; j++ {
 				doomedEp[curEpoch+j] = true
 			}
+		case "dial":
+			dialed[e.epoch] = true
+		case "end":
+			endedEp[e.epoch] = true
 		case "back":
 			if k, ok := lastFail[e.req]; ok {
 				for j := k + 1; j < e.epoch; j++ {
-					if !doomedEp[j] {
+					// only a connection that demonstrably was in place and stayed up counts as skipped
+					if !doomedEp[j] && dialed[j] && !endedEp[j] {
 						fail("missed-wakeup", fmt.Sprintf("request %d failed over on connection %d and was next tried on connection %d although connection %d in between was healthy: the replacement did not wake it", e.req, k, e.epoch, j))
 						break
 					}
@@ -224,7 +231,7 @@ func monitor(sc scenario, o outcome) verdict {
 				}
 			case closed:
 				// a closed client returns errors: fine
-			case q.ackSeenEp >= 0 && (!alive || laterDial(idx)):
+			case q.ackSeenEp >= 0 && (!alive || q.ackSeenEp < curEpoch || laterDial(idx)):
 				// acknowledged request whose connection was lost (killed by the scenario, or died on its own:
 				// the client dials a replacement afterwards): the caller gets an error, by design
 			case q.ackSeenEp >= 0:
